@@ -233,6 +233,21 @@ fn ends_with_access_without_type_arguments(expression: &expr::E<()>) -> bool {
   }
 }
 
+/// Whether the left spine of the expression, as far as it stays on the given precedence level,
+/// only uses the given operator. `a * ((b % c) * d)` must not be flattened to `a * b % c * d`.
+fn is_chain_of_operator(
+  expression: &expr::E<()>,
+  operator: expr::BinaryOperator,
+  precedence: i32,
+) -> bool {
+  match expression {
+    expr::E::Binary(e) if expression.precedence() == precedence => {
+      e.operator == operator && is_chain_of_operator(&e.e1, operator, precedence)
+    }
+    _ => true,
+  }
+}
+
 fn create_doc_for_subexpression_considering_precedence_level(
   heap: &Heap,
   comment_store: &CommentStore,
@@ -674,6 +689,7 @@ fn create_doc_without_preceding_comment(
       }
       if let expr::E::Binary(e2) = e.e2.as_ref()
         && e2.operator == e.operator
+        && is_chain_of_operator(&e2.e1, e.operator, expression.precedence())
         && matches!(
           e.operator,
           expr::BinaryOperator::PLUS
